@@ -241,6 +241,47 @@ class Gen:
             return ("for", f"{it} = 0", f"{it} < {guard}", f"{it}++", ("block", body), it, guard, False)
         return ("while", self.cond(), ("block", body))
 
+    def pair_cycle(self):
+        """constants, a loop that fails for SOME alternatives of one statement, then a loop whose two statements feed each other
+        (its failure depends on a PAIR of choices, so whole cliques of failing delta sequences are fused in the delta graph),
+        possibly followed by an overwrite: the shapes on which infinities recorded early must survive later compositions"""
+        r = self.r
+        vs = list(self.vars)
+        r.shuffle(vs)
+        a, b = vs[0], vs[1 % len(vs)]
+        c = vs[2 % len(vs)]
+        out = []
+        # a constant (zero-column) variable erases, in the composition, every infinity the later loops put in its row
+        # (b is the only variable live at the entry of the cycle `a = b . c; b = a . c`: all its diagonal infinities sit in row b)
+        consts = r.choice([[a, b], [b], [b], [b, c], [b, c], [a, b, c], [a], [v for v in vs if r.random() < 0.5][:2]])
+        r.shuffle(consts)
+        for v in consts:
+            out.append(("s", f"{v} = {r.randrange(1, 9)};"))
+        if r.random() < 0.7 and self.sites < self.c.max_sites:
+            self.sites += 1
+            t = r.choice([a, b])
+            pool = consts if (consts and r.random() < 0.7) else vs
+            pool = [v for v in pool if v != t] or [v for v in vs if v != t] or vs     # t among its own operands: no derivation at all
+            x, y = r.choice(pool), r.choice(pool)
+            out.append(("while", self.cond(), ("block", [("s", f"{t} = {x} {r.choice(['+', '+', '+', '*'])} {y};")])))
+            if consts and r.random() < 0.6:
+                c = r.choice(consts)
+        body = []
+        self.sites += 2
+        o1, o2 = r.choice(["+"] * 6 + ["*"]), r.choice(["+"] * 6 + ["*"])      # a product in the cycle leaves no derivation at all
+        s1 = f"{a} = {b} {o1} {c};" if r.random() < 0.5 else f"{a} = {c} {o1} {b};"
+        s2 = f"{b} = {a} {o2} {c};" if r.random() < 0.5 else f"{b} = {c} {o2} {a};"
+        body = [("s", s1), ("s", s2)]
+        if r.random() < 0.85:        # only rule L (counted loop) leaves derivations for an additive cycle; under rule W it has none
+            self.fresh += 1
+            it, guard = f"i{self.fresh}", f"n{self.fresh}"
+            out.append(("for", f"{it} = 0", f"{it} < {guard}", f"{it}++", ("block", body), it, guard, False))
+        else:
+            out.append(("while", self.cond(), ("block", body)))
+        if r.random() < 0.4:
+            out.append(("s", f"{r.choice([a, b])} = {r.choice(vs)};"))
+        return out
+
     def tight_cycle(self):
         """a loop whose 2-3 assignments multiply/add a small set of variables in a cycle: often no derivation at all,
         and frequently in a way the delta graph does not detect (the verdict then comes from the choice evaluation)"""
@@ -278,6 +319,8 @@ class Gen:
             ss += self.tight_cycle()
         elif b == "for-accumulate":
             ss += [self.for_accumulate()]
+        elif b == "pair-cycle":
+            ss += self.pair_cycle()
         elif b == "branch-accumulate":
             ss += [self.branch_accumulate()]
         elif b == "loops-in-branches":
